@@ -1,5 +1,5 @@
 // C13 harness: drives a real InstMgr with the op-line protocol shared with the Lean driver (Drivers/C13.lean).
-//   new h id name | append h st | delnode i | delinst h | state i st | clear | deleteall | dump | reset own
+//   new h id name | append h st | delnode i | delinst h | state i st | clear | deleteall | peek i | dump | reset own
 // After every operation one line `R <result>`; `dump` prints one canonical line of every public query.
 #include <cstdio>
 #include <cstring>
@@ -185,6 +185,15 @@ int main( int argc, char ** argv ) {
             for( int i = 0; i < n; i++ ) heap.erase( ( ( TInst * )mgr->GetApplication_instance( i ) )->handle );
             mgr->DeleteInstances();
             out << "R unit\n";
+        } else if( cmd == "peek" ) {
+            // GetApplication_instance( index ) for any index: below the count the instance, at or above it null
+            // (the pointer is followed only below the count)
+            int i = 0;
+            ls >> i;
+            SDAI_Application_instance * se = mgr->GetApplication_instance( i );
+            if( !se ) out << "R found -\n";
+            else if( i < mgr->InstanceCount() ) out << "R found " << ( ( TInst * )se )->handle << "\n";
+            else out << "R found X\n";
         } else if( cmd == "dump" ) {
             dump( out );
         } else {
